@@ -951,6 +951,90 @@ def fill_measure(ctx, systems):
 
 # ----------------------------------------------------------------------------------------------
 
+def defaults_history(ctx, n):
+    """Earlier calculations must not leak into later ones through the packaged defaults: a configuration
+    that relies on defaults gets the SAME effective configuration whatever was merged before, and an
+    effective configuration already handed out is not changed by later merges (no aliasing)."""
+    import yaml
+    import importlib
+    import cij.data
+    import cij.io.config.config as CFG
+    importlib.reload(CFG)
+
+    def fresh_defaults():
+        with open(cij.data.get_data_fname("default/settings.yaml")) as fp:
+            return yaml.safe_load(fp)
+
+    def oracle_merge(u, d):
+        out = {}
+        for k in set(u) | set(d):
+            if k not in u:
+                out[k] = copy.deepcopy(d[k])
+            elif k not in d:
+                out[k] = copy.deepcopy(u[k])
+            elif isinstance(u[k], dict) and isinstance(d[k], dict):
+                out[k] = oracle_merge(u[k], d[k])
+            else:
+                out[k] = copy.deepcopy(u[k])
+        return out
+
+    rng = ctx.rng
+    interps = ["spline", "lagrange", "krogh", "pchip", "akima"]
+    systems = ["cubic", "hexagonal", "orthorhombic", "trigonal7", "monoclinic"]
+
+    def explicit_user():
+        return dict(
+            qha=dict(input="in_%d" % rng.randrange(100), settings=dict(T_MIN=rng.choice([0, 10]), DT=rng.choice([10, 50, 200]),
+                     NT=rng.randrange(2, 9), NTV=rng.randrange(5, 40), DELTA_P=rng.choice([0.5, 2, 5]),
+                     DELTA_P_SAMPLE=5, order=rng.choice([3, 4]), volume_ratio=rng.choice([1.1, 1.3]))),
+            elast=dict(input="el_%d" % rng.randrange(100), settings=dict(
+                mode_gamma=dict(interpolator=rng.choice(interps), order=rng.randrange(2, 6)),
+                symmetry=dict(system=rng.choice(systems), ignore_rank=True, drop_atol=rng.choice([0, 1e-3])))),
+            output=dict(pressure_base=rng.sample(["cij", "cij_t", "bm_V", "G_R", "vs"], 2), volume_base=["p", "cij"]))
+
+    def minimal_user():
+        u = dict(qha=dict(input="input01"), elast=dict(input="elast.dat"))
+        r = rng.random()
+        if r < 0.3:
+            u["qha"]["settings"] = dict(NT=rng.randrange(2, 9))
+        elif r < 0.6:
+            u["elast"]["settings"] = dict(mode_gamma=dict(order=rng.randrange(2, 5)))
+        return u
+
+    for i in range(n):
+        seq = [explicit_user() if rng.random() < 0.6 else minimal_user() for _ in range(rng.randrange(2, 5))] + [minimal_user()]
+        handed = []
+        for j, u in enumerate(seq):
+            u_before = copy.deepcopy(u)
+            try:
+                got = CFG.apply_default_config(u)
+            except Exception as ex:
+                ctx.failure("history-dependence", "apply_default_config raised %s: %s in a sequence of calculations"
+                            % (type(ex).__name__, ex), input=dict(sequence=seq[:j + 1]))
+                return
+            want = oracle_merge(u_before, fresh_defaults())
+            ctx.case(dict(kind="defaults-history", seq=seq[:j + 1]), nontrivial=(j > 0))
+            ctx.count("defaults-history merges")
+            if got != want:
+                ctx.failure("history-dependence",
+                            "effective configuration #%d of a sequence differs from the one a fresh process computes "
+                            "(settings of an earlier calculation leaked through the defaults)" % (j + 1),
+                            input=dict(sequence=seq[:j + 1]), expected=want, observed=got)
+                return
+            if u != u_before:
+                ctx.failure("history-dependence", "apply_default_config modified the user configuration",
+                            input=dict(sequence=seq[:j + 1]))
+                return
+            handed.append((got, copy.deepcopy(got), j))
+            for g, snap, jj in handed:
+                if g != snap:
+                    ctx.failure("history-dependence",
+                                "the effective configuration handed out for calculation #%d changed when calculation "
+                                "#%d was configured (shared nested dictionaries)" % (jj + 1, j + 1),
+                                input=dict(sequence=seq[:j + 1]), expected=snap, observed=g)
+                    return
+
+
 def run(ctx):
     rd = ctx.fresh_run_dir()
     quick = ctx.tier == "quick"
@@ -1000,6 +1084,7 @@ def run(ctx):
               extra_Q=[(rd, "CijGen")])
 
     # -- model ties ------------------------------------------------------------------------------
+    defaults_history(ctx, 20 if quick else 100)
     memo_shard(ctx, rd)
     systems = lookup_tie(ctx, rd)
 
